@@ -220,6 +220,8 @@ pub struct HybState {
     pub cur_write_b: Option<(u64, u32)>,
     /// write-on-insertion policy (capacity evictions hand nothing over then, except disk-only entries)
     pub woi: bool,
+    /// per-entry maximum of the disk tier (aligned bytes)
+    pub max_entry: usize,
     /// version counter value at the first explicit close() since the last (re)open
     pub close_ver: Option<u32>,
     /// number of device writes issued by the workload proper (C04 / C03: later writes belong to recoveries)
@@ -366,9 +368,29 @@ fn on_foyer_event(kind: &'static str, a: u64, b: u64) {
                 }
             });
         }
+        "shed_reinsertion_space" => {
+            hist::ev("shed_reinsertion_space", a, b, 0);
+        }
         "shed_reinsertion" => {
             hist::ev("shed_reinsertion", a, b, 0);
             hist::probe("shed_reinsertion");
+            // a re-insertion may only be dropped when it does not fit: larger than the per-entry maximum, or larger
+            // than the space left in the flush buffer (reported by the probe right before this one)
+            let space = hist::with_events(|evs| evs.iter().rev().find(|e| e.kind == "shed_reinsertion_space" && e.a == a).map(|e| e.b as usize));
+            let len = crate::hyboracle::entry_writes().iter().rev().find(|w| w.hash == a && w.sequence == b).map(|w| w.len);
+            if let (Some(space), Some(len)) = (space, len) {
+                let aligned = len.div_ceil(PAGE) * PAGE;
+                let max_entry = ST.with(|s| s.borrow().max_entry);
+                if max_entry > 0 && aligned <= max_entry && aligned <= space {
+                    let prop = ST.with(|s| s.borrow().prop.clone());
+                    hist::violation(
+                        &prop,
+                        "reinsertion-dropped-although-it-fits",
+                        format!("the re-insertion of the entry of hash {a} (sequence {b}, {aligned} bytes aligned) was dropped although it is within the per-entry maximum ({max_entry}) and {space} bytes were left in the flush buffer"),
+                        &[],
+                    );
+                }
+            }
         }
         _ => {}
     }
@@ -1262,6 +1284,7 @@ pub fn init_state(case: &Case) {
             keys: case.get("keys").max(1) as u64,
             check_locks: case.get("check_locks") != 0,
             woi: case.get("policy") == 1,
+            max_entry: geo(case).max_entry,
             ..Default::default()
         };
     });
